@@ -8,6 +8,10 @@ OPTS = ["-", "preload=true", "lrucache=true&lrucachesize=100000", "preload=true&
 ARG_POOL = [("S", b"x,y"), ("S", b"y,z"), ("S", b"z"), ("I", -1), ("S", b"1"), ("S", b"2"), ("S", b"x"), ("S", b""), ("S", b'q"uote'), ("S", b"new\nline"), ("S", b"\xc3\xa9"), ("I", 1), ("I", 2), ("I", 0), ("I", -3), ("I", 9007199254740993), ("I", -9007199254740993), ("S", b"zz-absent")]
 
 
+SHAPES = [b'a = "1" | (b = "x" & c = "q")', b'a = "1" & (b = "x" | c = "q")', b'^ (a = "1" | b = "y")', b'a = "2" | (b = "y" | c = "p")',
+          b'(a = "1" & b = "x") & c = "p"', b'^ (a = "1" & (b = "x" | c = "q"))', b'(a = "1" | b = "z") & (c = "p" | a = "-3") ; b', b'a = "x" | (b = "z" & (c = "p" | a = "2"))']
+
+
 def enc_args(args):
     return "ARGS %d%s" % (len(args), "".join(" S " + core.enc_str(a[1]) if a[0] == "S" else " I %d" % a[1] for a in args))
 
@@ -68,7 +72,7 @@ def gen(rng, tier, focus):
         for oi, opts in enumerate(optset):
             h = "%s_o%d" % (ds.did, oi)
             lines.append("SQLOPEN %s %s %s" % (h, ds.did, opts))
-            for qn in range(max(6, nq // len(optset))):
+            for qn in range(max(8 + len(SHAPES) if i == 0 else 6, nq // len(optset))):
                 txt, t, gb = query_text(rng, ds)
                 if i == 0 and qn == 0:
                     txt, t, gb = b'a = "zzz" ; c, b', ("E", b"a", b"zzz", 0), [b"c", b"b"]       # grouped, no matching group
@@ -96,9 +100,14 @@ def gen(rng, tier, focus):
                     vals = sorted(set(v for c in c0 for v in ds.values().get(c, []) if all(x < 128 for x in v)))[:4] or [b"1"]
                     mode = "prepared"
                     argsets = [[("S", rng.choice(vals)), ("S", rng.choice(vals))] for _ in range(4)]
-                if i == 0 and qn == 2:      # negative integers, on every path
+                if i == 0 and qn in (2, 6, 7):      # negative integers, on every path
                     txt, t, gb, m = b"a = $1 ; b", ("E", b"a", b"", 1), [b"b"], 1
+                    mode = {2: "prepared", 6: "direct", 7: "tx"}[qn]
                     argsets = [[("I", -3)], [("I", 0)], [("I", -3)]]
+                if i == 0 and 8 <= qn < 8 + len(SHAPES):   # nesting shapes the conversion layer must keep apart
+                    txt, gb, m = SHAPES[qn - 8], [], 0
+                    t = ("E", b"a", b"1", 0)
+                    mode, argsets = ("direct" if qn % 2 else "prepared"), [[]]
                 if i == 0 and qn == 3:      # argument lists that differ only in where a comma sits
                     txt, t, gb, m = b"a = $1 & b = $2 ; c", ("A", [("E", b"a", b"", 1), ("E", b"b", b"", 2)]), [b"c"], 2
                     mode, argsets = "prepared", [[("S", b"x,y"), ("S", b"z")], [("S", b"x"), ("S", b"y,z")], [("S", b"x,y"), ("S", b"z")]]
